@@ -32,6 +32,16 @@ type ntsCase struct {
 	build func(r *lib.Rand, h []byte, ri reqInfo) []byte
 }
 
+// rawExt: an extension field as any peer could write it (type, length, value padded to 4 bytes).
+func rawExt(typ int, v []byte) []byte {
+	n := (len(v) + 3) &^ 3
+	f := make([]byte, 4+n)
+	f[0], f[1] = byte(typ>>8), byte(typ)
+	f[2], f[3] = byte((4+n)>>8), byte(4+n)
+	copy(f[4:], v)
+	return f
+}
+
 func flip(b []byte, k int) []byte {
 	b = append([]byte(nil), b...)
 	if k < 0 {
@@ -73,6 +83,27 @@ func ntsCases() []ntsCase {
 			return gen(h, ri)
 		}},
 		{"authentic:second-genuine", func(r *lib.Rand, h []byte, ri reqInfo) []byte { return gen(h, ri) }},
+		// a genuine response to another request of the association (same S2C key, other identifier)
+		// with unauthenticated fields appended behind its authenticator: the outstanding request's
+		// identifier (it travels in clear), alone, repeated, behind other fields
+		{"other-uid+trailing-uid", func(r *lib.Rand, h []byte, ri reqInfo) []byte {
+			return append(encodeNTS(h, ntsS2C, r.Bytes(32), 9), rawExt(0x104, ri.uid)...)
+		}},
+		{"other-uid+trailing-unknown-uid", func(r *lib.Rand, h []byte, ri reqInfo) []byte {
+			return append(append(encodeNTS(h, ntsS2C, r.Bytes(32), 9), rawExt(0x4204, r.Bytes(32))...), rawExt(0x104, ri.uid)...)
+		}},
+		{"other-uid+trailing-cookie-uid-uid", func(r *lib.Rand, h []byte, ri reqInfo) []byte {
+			return append(append(append(encodeNTS(h, ntsS2C, r.Bytes(32), 9), rawExt(0x204, r.Bytes(100))...), rawExt(0x104, ri.uid)...), rawExt(0x104, ri.uid)...)
+		}},
+		{"other-uid+trailing-uid-zeros", func(r *lib.Rand, h []byte, ri reqInfo) []byte {
+			return append(append(encodeNTS(h, ntsS2C, r.Bytes(32), 9), rawExt(0x104, ri.uid)...), make([]byte, 4*r.Intn(10))...)
+		}},
+		{"genuine+trailing-other-uid", func(r *lib.Rand, h []byte, ri reqInfo) []byte {
+			return append(gen(h, ri), rawExt(0x104, r.Bytes(32))...)
+		}},
+		{"genuine+trailing-cookie", func(r *lib.Rand, h []byte, ri reqInfo) []byte {
+			return append(gen(h, ri), rawExt(0x204, r.Bytes(100))...)
+		}},
 	}
 }
 
